@@ -15,6 +15,32 @@ EXPECTED = {"EMG": ("_emgMap", "_signals"), "ForcePlatformsCalibrationDataBlock"
             "ForcePlatformsDataBlock": ("_plat_map", "_platforms")}
 
 
+def resolve_expected(prog):
+    """The instance table names the three channel-mapped classes; which two attributes form the pair is read off the code (the
+    adder appends to exactly two list attributes: the one that receives the adder's item parameter is the item list, the other the
+    channel map), so renaming a private attribute is not an event.  Updates EXPECTED in place and returns parallel_pairs(prog)."""
+    pairs = parallel_pairs(prog)
+    for cname, (amap, items) in list(EXPECTED.items()):
+        if cname not in pairs:
+            raise AnalysisError(f"anchor vanished: parallel lists of {cname} (no method appends to two list attributes)")
+        a, b, c, f = pairs[cname]
+        if {a, b} == {amap, items}:
+            continue
+        sn = f.self_name or "self"
+        item_param = f.params[0] if f.params else None
+        role = {}
+        for x in walk_no_nested(f.node):
+            if isinstance(x, ast.Call) and isinstance(x.func, ast.Attribute) and x.func.attr == "append" and is_self_attr(x.func.value, self_name=sn) and x.args:
+                role.setdefault(x.func.value.attr, set()).add(isinstance(x.args[0], ast.Name) and x.args[0].id == item_param)
+        its = [k for k, v in role.items() if v == {True}]
+        maps = [k for k, v in role.items() if v == {False}]
+        if len(its) == 1 and len(maps) == 1:
+            EXPECTED[cname] = (maps[0], its[0])
+        else:
+            raise AnalysisError(f"{cname}: parallel pair is now ({a}, {b}) and the adder does not tell the item list from the channel map")
+    return pairs
+
+
 def list_ops(fn, attr, sn):
     """[(kind, position text, stmt)] of mutations of self.<attr> in fn."""
     out = []
@@ -704,14 +730,10 @@ def run(prog, rep):
         "of an explicit channel), auto-channel-fresh, container-kind (list vs ndarray kind inference on decoder installs), "
         "handler-keeps-pair, lookup-types, encoding-order."
     )
-    pairs = parallel_pairs(prog)
+    pairs = resolve_expected(prog)
     n = 0
     for cname, (amap, items) in EXPECTED.items():
-        if cname not in pairs:
-            raise AnalysisError(f"anchor vanished: parallel lists of {cname} (no method appends to two list attributes)")
         a, b, c, f = pairs[cname]
-        if {a, b} != {amap, items}:
-            raise AnalysisError(f"{cname}: parallel pair is now ({a}, {b}); the rule instance table lists ({amap}, {items})")
         n += check_class(prog, cd, rep, cname, amap, items, c)
     rep.attempt(item_equality_looks_at_other, prog, rep)
     rep.attempt(arguments_walked_once, prog, rep)
